@@ -124,107 +124,172 @@ fn clean_returns_everything_unacked_in_order() {
     }
 }
 
-/// C11 history lemma (bounded): after any history of QoS1 publishes and in-order PUBACKs from a fresh
-/// state, clean() returns the unacknowledged publishes in the order they were sent, wrap-around included.
-fn history_lemma(name: &str, with_qos2: bool) {
-    let depth: usize = std::env::var("VERIF_DEPTH").ok().and_then(|s| s.parse().ok()).unwrap_or(9);
-    let mut cases = 0u64;
-    let mut fail: Option<String> = None;
-    for n in 1..=nmax() {
-        // ops: 0 = publish (if window not full and no collision), 1 = ack oldest, 2 = connection failure + session resume
-        // (clean(), then the carried-over requests are replayed first, as the event loop does)
-        // 3 = publish QoS 2 (acknowledged, in its turn, by PUBREC and PUBCOMP: no PUBACK ever names its id)
-        for code in 0..4u64.pow(depth as u32) {
-            if !with_qos2 && (0..depth).any(|k| (code / 4u64.pow(k as u32)) % 4 == 3) {
+struct Hist {
+    n: usize,
+    mode: u8,
+    kind: u8,
+    cases: u64,
+    deviations: u64,
+    fail: Option<String>,
+}
+
+impl Hist {
+    // script notation: pK = QoS 1 publish sent with id K, qK = QoS 2 publish sent with id K, aK = in-order ack of id K (PUBACK, or
+    // PUBREC+PUBCOMP for a QoS 2 one), F = connection failure + session resumed (carried-over requests replayed first),
+    // L = connection failure + broker reports no session (carried-over requests dropped, state kept)
+    /// verdict on one clean(): None = fine for this kind of obligation
+    fn judge(&mut self, script: &str, pending: &Vec<Request>, sent: &std::collections::VecDeque<Publish>, marker: u16) -> Option<String> {
+        let n = self.n;
+        let exp: Vec<Request> = sent.iter().cloned().map(Request::Publish).collect();
+        let q1 = |v: &Vec<Request>| -> Vec<u16> { v.iter().filter_map(|r| match r { Request::Publish(p) if p.qos == QoS::AtLeastOnce => Some(p.pkid), _ => None }).collect() };
+        let ids = |v: &Vec<Request>| -> Vec<u16> { v.iter().map(|r| match r { Request::Publish(p) => p.pkid, _ => 0 }).collect() };
+        let mut a: Vec<&Request> = pending.iter().collect();
+        let mut b: Vec<&Request> = exp.iter().collect();
+        let key = |r: &&Request| match r { Request::Publish(p) => (p.pkid, p.payload.to_vec()), _ => (0, vec![]) };
+        a.sort_by_key(key);
+        b.sort_by_key(key);
+        if a != b {
+            return Some(format!("input=[n={} script={}] detail=[clean returned ids {:?}, unacknowledged are {:?}: something lost, invented or altered]", n, script, ids(pending), ids(&exp)));
+        }
+        if q1(pending) == q1(&exp) {
+            return None;
+        }
+        self.deviations += 1;
+        if self.kind == 0 {
+            return Some(format!("input=[n={} script={}] detail=[clean returned ids {:?}, send order was {:?}]", n, script, ids(pending), ids(&exp)));
+        }
+        // the recorded finding: the list is the slot order started after the id named by the last PUBACK
+        let mut recorded: Vec<u16> = sent.iter().map(|p| p.pkid).collect();
+        recorded.sort_by_key(|id| if *id > marker { (0, *id) } else { (1, *id) });
+        if ids(pending) != recorded {
+            return Some(format!("input=[n={} script={}] detail=[clean returned ids {:?}; send order was {:?}; the recorded deviation (list starts after the last PUBACKed id {}) would be {:?}: a different deviation]", n, script, ids(pending), ids(&exp), marker, recorded));
+        }
+        None
+    }
+
+    /// depth-first over all histories of at most `left` further effective steps (steps without effect are not taken)
+    fn dfs(&mut self, st: &MqttState, sent: &std::collections::VecDeque<Publish>, marker: u16, tag: u8, script: &mut String, left: usize) {
+        if self.fail.is_some() {
+            return;
+        }
+        // the connection may fail here: what clean() hands back now
+        let pending = st.clone().clean();
+        self.cases += 1;
+        if let Some(f) = self.judge(script, &pending, sent, marker) {
+            self.fail = Some(f);
+            return;
+        }
+        if left == 0 {
+            return;
+        }
+        let mark = script.len();
+        // publish QoS 1 / QoS 2 (window not full, nothing parked)
+        for qos2 in [false, true] {
+            if qos2 && self.mode != 1 {
                 continue;
             }
-            let mut st = MqttState::new(n as u16, false);
-            let mut sent: std::collections::VecDeque<Publish> = Default::default();
-            let mut script = String::new();
-            let mut tag = 0u8;
-            for k in 0..depth {
-                let op = (code / 4u64.pow(k as u32)) % 4;
-                if op == 0 || op == 3 {
-                    if st.inflight >= st.max_inflight || st.collision.is_some() {
-                        continue;
-                    }
-                    tag = tag.wrapping_add(1);
-                    let p = Publish::new(format!("t/{}", tag), if op == 0 { QoS::AtLeastOnce } else { QoS::ExactlyOnce }, vec![tag]);
-                    match st.handle_outgoing_packet(Request::Publish(p)) {
-                        Ok(Some(Packet::Publish(q))) => {
-                            script.push_str(&format!("pub{}->{} ", if op == 0 { 1 } else { 2 }, q.pkid));
-                            sent.push_back(q);
-                        }
-                        other => {
-                            fail = Some(format!("input=[n={} script={}] detail=[publish in open window not sent: {:?}]", n, script, other.map(|_| ())));
-                            break;
-                        }
-                    }
-                } else if op == 1 {
-                    if let Some(p) = sent.pop_front() {
-                        script.push_str(&format!("ack{} ", p.pkid));
-                        let acked = if p.qos == QoS::AtLeastOnce {
-                            st.handle_incoming_packet(Incoming::PubAck(PubAck::new(p.pkid))).is_ok()
-                        } else {
-                            st.handle_incoming_packet(Incoming::PubRec(PubRec::new(p.pkid))).is_ok() && st.handle_incoming_packet(Incoming::PubComp(PubComp::new(p.pkid))).is_ok()
-                        };
-                        if !acked {
-                            fail = Some(format!("input=[n={} script={}] detail=[in-order ack rejected]", n, script));
-                            break;
-                        }
-                    }
-                } else {
-                    script.push_str("fail+resume ");
-                    let pending = st.clean();
-                    let exp: Vec<Request> = sent.iter().cloned().map(Request::Publish).collect();
-                    // every unacknowledged publish is handed back, and the QoS 1 ones among them in the order they were sent
-                    let q1 = |v: &Vec<Request>| -> Vec<u16> { v.iter().filter_map(|r| match r { Request::Publish(p) if p.qos == QoS::AtLeastOnce => Some(p.pkid), _ => None }).collect() };
-                    let mut a: Vec<String> = pending.iter().map(|r| format!("{:?}", r)).collect();
-                    let mut b: Vec<String> = exp.iter().map(|r| format!("{:?}", r)).collect();
-                    a.sort();
-                    b.sort();
-                    if a != b || q1(&pending) != q1(&exp) {
-                        fail = Some(format!("input=[n={} script={}] detail=[clean returned ids {:?}, send order was {:?}]", n, script,
-                            pending.iter().map(|r| match r { Request::Publish(p) => p.pkid, _ => 0 }).collect::<Vec<_>>(), sent.iter().map(|p| p.pkid).collect::<Vec<_>>()));
-                        break;
-                    }
-                    for r in pending {
-                        match st.handle_outgoing_packet(r.clone()) {
-                            Ok(Some(Packet::Publish(q))) if Request::Publish(q.clone()) == r => {}
-                            other => {
-                                fail = Some(format!("input=[n={} script={}] detail=[replay of {:?} produced {:?}]", n, script, r, other.map(|_| ())));
-                                break;
-                            }
-                        }
-                    }
-                    if fail.is_some() {
-                        break;
+            if st.inflight >= st.max_inflight || st.collision.is_some() {
+                continue;
+            }
+            let mut st2 = st.clone();
+            let p = Publish::new("t", if qos2 { QoS::ExactlyOnce } else { QoS::AtLeastOnce }, vec![tag.wrapping_add(1)]);
+            match st2.handle_outgoing_packet(Request::Publish(p)) {
+                Ok(Some(Packet::Publish(q))) => {
+                    script.push(if qos2 { 'q' } else { 'p' });
+                    script.push_str(&q.pkid.to_string());
+                    script.push(' ');
+                    let mut sent2 = sent.clone();
+                    sent2.push_back(q);
+                    st2.events.clear();
+                    self.dfs(&st2, &sent2, marker, tag.wrapping_add(1), script, left - 1);
+                    script.truncate(mark);
+                }
+                other => {
+                    self.fail = Some(format!("input=[n={} script={}] detail=[publish in open window not sent: {:?}]", self.n, script, other.map(|_| ())));
+                    return;
+                }
+            }
+        }
+        // the broker acknowledges the oldest unacknowledged publish
+        if let Some(p) = sent.front() {
+            let mut st2 = st.clone();
+            let mut sent2 = sent.clone();
+            sent2.pop_front();
+            let mut marker2 = marker;
+            let acked = if p.qos == QoS::AtLeastOnce {
+                marker2 = p.pkid;
+                st2.handle_incoming_packet(Incoming::PubAck(PubAck::new(p.pkid))).is_ok()
+            } else {
+                st2.handle_incoming_packet(Incoming::PubRec(PubRec::new(p.pkid))).is_ok() && st2.handle_incoming_packet(Incoming::PubComp(PubComp::new(p.pkid))).is_ok()
+            };
+            script.push('a');
+            script.push_str(&p.pkid.to_string());
+            script.push(' ');
+            if !acked {
+                self.fail = Some(format!("input=[n={} script={}] detail=[in-order ack rejected]", self.n, script));
+                return;
+            }
+            st2.events.clear();
+            self.dfs(&st2, &sent2, marker2, tag, script, left - 1);
+            script.truncate(mark);
+        }
+        // connection failure, session resumed: the carried-over publishes are replayed first (in send order, as a faithful client)
+        {
+            let mut st2 = st.clone();
+            let _ = st2.clean();
+            script.push_str("F ");
+            for p in sent.iter() {
+                let r = Request::Publish(p.clone());
+                match st2.handle_outgoing_packet(r.clone()) {
+                    Ok(Some(Packet::Publish(q))) if Request::Publish(q.clone()) == r => {}
+                    other => {
+                        self.fail = Some(format!("input=[n={} script={}] detail=[replay of {:?} produced {:?}]", self.n, script, r, other.map(|_| ())));
+                        return;
                     }
                 }
             }
-            if fail.is_some() {
-                break;
-            }
-            let pending = st.clean();
-            let exp: Vec<Request> = sent.iter().cloned().map(Request::Publish).collect();
-            cases += 1;
-            let q1 = |v: &Vec<Request>| -> Vec<u16> { v.iter().filter_map(|r| match r { Request::Publish(p) if p.qos == QoS::AtLeastOnce => Some(p.pkid), _ => None }).collect() };
-            let mut a: Vec<String> = pending.iter().map(|r| format!("{:?}", r)).collect();
-            let mut b: Vec<String> = exp.iter().map(|r| format!("{:?}", r)).collect();
-            a.sort();
-            b.sort();
-            if a != b || q1(&pending) != q1(&exp) {
-                fail = Some(format!("input=[n={} script={}] detail=[clean returned ids {:?}, send order was {:?}]", n, script,
-                    pending.iter().map(|r| match r { Request::Publish(p) => p.pkid, _ => 0 }).collect::<Vec<_>>(), sent.iter().map(|p| p.pkid).collect::<Vec<_>>()));
-                break;
-            }
+            st2.events.clear();
+            self.dfs(&st2, sent, marker, tag, script, left - 1);
+            script.truncate(mark);
         }
-        if fail.is_some() {
+        // connection failure, the broker reports no session: carried-over requests dropped, state kept (EventLoop)
+        if self.mode == 2 {
+            let mut st2 = st.clone();
+            let _ = st2.clean();
+            script.push_str("L ");
+            st2.events.clear();
+            self.dfs(&st2, &Default::default(), marker, tag, script, left - 1);
+            script.truncate(mark);
+        }
+    }
+}
+
+/// Engine of the C11 history lemmas.  `mode`: 0 = QoS 1 only, 1 = QoS 2 publishes interleaved, 2 = reconnects on which
+/// the broker reports no session interleaved (carried-over requests dropped, state kept, as EventLoop does).
+/// `kind`: 0 = "clean() hands the unacknowledged QoS 1 publishes back in send order" (stops at the first deviation);
+/// 1 = "whenever the order deviates, it is exactly the deviation recorded as known finding: the list starts after the
+/// id named by the last PUBACK" (so that any OTHER deviation is still reported although the finding is listed).
+fn history_lemma(name: &str, mode: u8, kind: u8) {
+    let depth: usize = std::env::var("VERIF_DEPTH").ok().and_then(|s| s.parse().ok()).unwrap_or(9);
+    let mut cases = 0u64;
+    let mut deviations = 0u64;
+    let mut fail: Option<String> = None;
+    for n in 1..=nmax() {
+        let mut h = Hist { n, mode, kind, cases: 0, deviations: 0, fail: None };
+        let mut st = MqttState::new(n as u16, false);
+        // the inbound QoS 2 table plays no part here: keep the clones small
+        st.incoming_pub = FixedBitSet::with_capacity(0);
+        h.dfs(&st, &Default::default(), 0, 0, &mut String::new(), depth);
+        cases += h.cases;
+        deviations += h.deviations;
+        if h.fail.is_some() {
+            fail = h.fail;
             break;
         }
     }
     match fail {
-        None => println!("VERIF-OBLIGATION {} props=C11 bound=\"all scripts of length {} over publish QoS1 /{} ack-oldest / failure+resume from new(n), n 1..={}\" cases={} ok", name, depth, if with_qos2 { " publish QoS2 /" } else { "" }, nmax(), cases),
+        None => println!("VERIF-OBLIGATION {} props=C11 bound=\"every history of at most {} effective steps over publish QoS1 /{} ack-oldest / failure+resume{} from new(n), n 1..={}, with a failure after every prefix; {} deviating histories, each the recorded one\" cases={} ok", name, depth,
+            if mode == 1 { " publish QoS2 /" } else { "" }, if mode == 2 { " / failure+no-session" } else { "" }, nmax(), deviations, cases),
         Some(f) => {
             println!("VERIF-FAIL {} props=C11 {}", name, f);
             panic!("{}", f);
@@ -235,7 +300,7 @@ fn history_lemma(name: &str, with_qos2: bool) {
 // @native props=C11 tier=quick fn=MqttState::clean+outgoing_publish+handle_incoming_puback
 #[test]
 fn clean_after_in_order_ack_history_is_send_order() {
-    history_lemma("rumqttc::MqttState::clean#send_order_after_in_order_acks", false);
+    history_lemma("rumqttc::MqttState::clean#send_order_after_in_order_acks", 0, 0);
 }
 
 /// the same with QoS 2 publishes interleaved (their ids are never named by a PUBACK, so the rotation marker
@@ -244,7 +309,27 @@ fn clean_after_in_order_ack_history_is_send_order() {
 // @native props=C11 tier=quick fn=MqttState::clean+outgoing_publish+handle_incoming_{puback,pubrec,pubcomp}
 #[test]
 fn clean_send_order_with_qos2_publishes_interleaved() {
-    history_lemma("rumqttc::MqttState::clean#send_order_with_qos2_interleaved", true);
+    history_lemma("rumqttc::MqttState::clean#send_order_with_qos2_interleaved", 1, 0);
+}
+
+/// ... and every deviating history of that space deviates exactly as recorded (anything else is a new violation)
+// @native props=C11 tier=quick fn=MqttState::clean+outgoing_publish+handle_incoming_{puback,pubrec,pubcomp}
+#[test]
+fn clean_deviation_with_qos2_is_the_recorded_one() {
+    history_lemma("rumqttc::MqttState::clean#qos2_interleaved_deviation_is_the_recorded_one", 1, 1);
+}
+
+/// reconnects on which the broker reports no session (EventLoop drops the carried-over requests, keeps the state)
+// @native props=C11 tier=quick fn=MqttState::clean+outgoing_publish+handle_incoming_puback
+#[test]
+fn clean_send_order_after_a_lost_session() {
+    history_lemma("rumqttc::MqttState::clean#send_order_after_a_lost_session", 2, 0);
+}
+
+// @native props=C11 tier=quick fn=MqttState::clean+outgoing_publish+handle_incoming_puback
+#[test]
+fn clean_deviation_after_a_lost_session_is_the_recorded_one() {
+    history_lemma("rumqttc::MqttState::clean#lost_session_deviation_is_the_recorded_one", 2, 1);
 }
 
 /// `new` establishes the representation invariant: tables sized for every id the wire can carry
